@@ -17,7 +17,8 @@ COLS = ["loads_min", "loads_max", "S_min", "S_max", "epsilon_min", "epsilon_max"
         "R", "epsilon_min_LF", "epsilon_max_LF"]
 FLAGS = ["is_closed_hysteresis", "is_zero_mean_stress_and_strain", "run_index"]
 REQUIRED_CLASSES = {t: ["law:neuber_binned", "law:seegerbeste_binned", "memory1", "memory2", "memory3",
-                        "depth>=4", "multi:2..6_points", "multi:dyadic", "multi:general_ratio", "multi:load_ratio>100", "negation"]
+                        "depth>=4", "multi:2..6_points", "multi:dyadic", "multi:general_ratio", "multi:load_ratio>100", "negation", "load_step_labels:descending", "load_step_labels:shuffled", "node_ids:descending",
+                        "node_ids:shuffled_large"]
                     for t in ("quick", "thorough")}
 REQUIRED_MONITORS = ["stream==reversals_of_repeated_sequence", "rows:count", "rows:flags", "rows:values", "strain_values",
                      "multi_point==single_point", "negation_mirrors"]
@@ -215,13 +216,16 @@ def run_case(case, ctx):
             ctx.tag("multi:general_ratio")
         import pylife.materiallaws.notch_approximation_law as NAL
         base = hcm.make_law(case["law"], False, None, None, E_, K_, n_, case["kp"])
-        maxload = pd.Series([mx * f for f in factors], index=pd.Index(range(k), name="node_id"))
+        lk, labels = hcm.step_labels(rng, len(seq))
+        nk, node_ids = hcm.node_labels(rng, k)
+        ctx.tag("load_step_labels:" + lk, "node_ids:" + nk)
+        maxload = pd.Series([mx * f for f in factors], index=pd.Index(node_ids, name="node_id"))
         law_m = NAL.Binned(base, maxload, case["bins"])
         import pylife.stress.rainflow.recorders as RFR
         from pylife.stress.rainflow.fkm_nonlinear import FKMNonlinearDetector
         rec = RFR.FKMNonlinearRecorder()
         det_m = FKMNonlinearDetector(recorder=rec, notch_approximation_law=law_m)
-        ser = hcm.multi_point_series(seq, factors)
+        ser = hcm.multi_point_series(seq, factors, labels, node_ids)
         det_m.process_hcm_first(ser)
         det_m.process_hcm_second(ser)
         cm = rec.collective
